@@ -59,6 +59,7 @@ type vfWConfig struct {
 	} `json:"prio"`
 	Timeouts bool `json:"timeouts"` // observe handshake / idle cuts
 	CertSpelling string `json:"cert_spelling"` // how the operator wrote the two paths: "" canonical | "dot" (dir/./tls.crt) | "dslash" (dir//tls.crt) | "rel" (relative, ./ in front)
+	Aged     bool `json:"aged"`     // requests on connections that are older than the handshake timeout (C15 C08)
 	Certs    bool `json:"certs"`    // rotate the key pair on disk and look at what handshakes of several kinds are shown (C14)
 	ViaEnv   bool `json:"via_env"`  // every setting through its environment variable ($FORWARD_URL, $ENABLE_KUBERNETES_PROBE, ...) instead of the command line
 }
@@ -81,6 +82,7 @@ type vfWOut struct {
 	Obs      []vfWObs          `json:"obs"`
 	PrioFP   []string          `json:"prio_fp"`
 	Cuts     map[string]int64  `json:"cuts_ms"`
+	Aged     map[string]string `json:"aged,omitempty"` // request -> "status/forwarded"
 	Certs    []map[string]int64 `json:"certs,omitempty"` // per phase: serial number shown to each kind of client (-1: handshake failed)
 	Err      string            `json:"err,omitempty"`
 }
@@ -352,6 +354,52 @@ func vfWRun(t *testing.T, c vfWConfig) vfWOut {
 			v = "ERR:" + err.Error()
 		}
 		out.PrioFP = append(out.PrioFP, v)
+	}
+	if c.Aged {
+		// a connection lives much longer than its handshake: requests sent when it is older than the handshake timeout are served like the first one
+		out.Aged = map[string]string{}
+		note := func(name string, status int, tag string) {
+			o := vfWObs{Headers: map[string][]string{}}
+			view(tag, &o)
+			out.Aged[name] = fmt.Sprintf("%d/%d", status, o.Forwarded)
+		}
+		tr := &fphttp2.Transport{TLSClientConfig: &tls.Config{InsecureSkipVerify: true, ServerName: "vf.test"}}
+		h2get := func(tag string) int {
+			req, _ := http.NewRequest("GET", "https://"+addr+"/aged", nil)
+			req.Host = "vf.test"
+			req.Header.Set("X-Vf-Tag", tag)
+			resp, err := tr.RoundTrip(req)
+			if err != nil {
+				return -1
+			}
+			io.Copy(io.Discard, resp.Body)
+			resp.Body.Close()
+			return resp.StatusCode
+		}
+		note("h2_first", h2get("aged-h2-1"), "aged-h2-1")
+		if tc, err := dial("http/1.1"); err == nil {
+			br := bufio.NewReader(tc)
+			h1get := func(tag string) int {
+				tc.SetDeadline(time.Now().Add(5 * time.Second))
+				io.WriteString(tc, "GET /aged HTTP/1.1\r\nHost: vf.test\r\nX-Vf-Tag: "+tag+"\r\n\r\n")
+				resp, err := http.ReadResponse(br, nil)
+				if err != nil {
+					return -1
+				}
+				io.Copy(io.Discard, resp.Body)
+				resp.Body.Close()
+				return resp.StatusCode
+			}
+			note("h1_first", h1get("aged-h1-1"), "aged-h1-1")
+			time.Sleep(700 * time.Millisecond)
+			note("h1_later", h1get("aged-h1-2"), "aged-h1-2")
+			tc.Close()
+		} else {
+			time.Sleep(700 * time.Millisecond)
+		}
+		note("h2_later", h2get("aged-h2-2"), "aged-h2-2")
+		note("h2_later_again", h2get("aged-h2-3"), "aged-h2-3")
+		tr.CloseIdleConnections()
 	}
 	if c.Certs {
 		// what a handshake is shown: a client that names the host, one that sends no server name at all (an IP literal, a health checker),
